@@ -347,6 +347,10 @@ def check(eng, res):
     res.floor("R-HANDOVER-GUARD", n, 2)
     reserve_pair(eng, res)
     handover_weight(eng, res)
+    from . import c01
+
+    res.doc("R-INSERT-COND", "the hand-over descriptor is inserted exactly when the token lacks it (shared with C01)")
+    c01.insert_conditions(eng, res)
     do_while(eng, res)
     fully(eng, res)
     res.floor("R-DO-WHILE", sum(1 for o in res.obligations if o.rule == "R-DO-WHILE"), 2)
